@@ -15,7 +15,7 @@ if [ "$1" = "--clean" ]; then
 fi
 if [ "$1" = "-c" ]; then MUTCMD="$2"; shift; shift; else PATCH=$(readlink -f "$1"); shift; fi
 if [ ! -d $WT ]; then git -C /repo worktree add --detach $WT HEAD >/dev/null 2>&1; fi
-git -C $WT checkout -q -- . && git -C $WT clean -fdq -e target
+git -C $WT reset -q --hard && git -C $WT clean -fdq -e target
 git -C $WT checkout -q --detach $(git -C /repo rev-parse HEAD)
 if [ -n "$MUTCMD" ]; then (cd $WT && sh -c "$MUTCMD"); else git -C $WT apply "$PATCH"; fi
 git -C $WT diff --stat | tail -1
